@@ -214,18 +214,3 @@ Theorem simplify_unused_pure_optional_call_refuted :
 Proof. exact simplify_unused_pure_optional_call_refuted_w. Qed.
 Print Assumptions simplify_unused_pure_optional_call_refuted.
 
-(* REFUTED (finding P): ValuesLookTheSame answers true for typeof x / typeof (0, x),
-   which evaluate differently when x is not declared; MangleIfExpr relies on it *)
-Theorem values_look_the_same_refuted :
-  values_look_the_same typeof_bare typeof_comma = true
-  /\ eval WP [] typeof_bare = Some ([], Val (VStr s_undefined))
-  /\ eval WP [] typeof_comma = Some ([], Throw (VStr s_ReferenceError)).
-Proof. exact values_look_the_same_refuted_w. Qed.
-Print Assumptions values_look_the_same_refuted.
-
-Theorem mangle_if_typeof_mark_refuted :
-  mangle_if ub false false (EId 1 false false) typeof_bare typeof_comma = Some typeof_bare
-  /\ eval WP [] (EIf (EId 1 false false) typeof_bare typeof_comma) = Some ([], Throw (VStr s_ReferenceError))
-  /\ eval WP [] typeof_bare = Some ([], Val (VStr s_undefined)).
-Proof. exact mangle_if_typeof_mark_refuted_w. Qed.
-Print Assumptions mangle_if_typeof_mark_refuted.
